@@ -52,7 +52,7 @@ def stats_json(stats):
     return out
 
 
-def record_run(params: dict, *, tid: int, workload=None, exact=None, mode="obs", U=None, meta=None, policy_key=None, sparse=False, ret_ctx=False, holder=None):
+def record_run(params: dict, *, tid: int, workload=None, exact=None, mode="obs", U=None, meta=None, policy_key=None, sparse=False, ret_ctx=False, holder=None, lean=False):
     """Run run_simulator(params, workload) and return (events, stats_or_None, exception_or_None)."""
     common.import_repo()
     from eudoxia.simulator import run_simulator, parse_args_with_defaults
@@ -66,7 +66,23 @@ def record_run(params: dict, *, tid: int, workload=None, exact=None, mode="obs",
     idx = PipeIndex()
     cids = CidMap()
     events = []
-    st = {"t": 0, "ex": None, "wrapped": False, "last_results": [], "arrived_now": []}
+    st = {"t": 0, "ex": None, "wrapped": False, "last_results": [], "arrived_now": [], "ost": [], "live": set()}
+
+    def ost_delta():
+        """lean recording (runs with thousands of pipelines): only the pipelines whose operator states differ from the last report.
+        A pipeline seen with every operator completed is not looked at again until the end of the run (final_ost is complete)."""
+        old, d = st["ost"], []
+        for k in range(len(old), len(idx.ops)):
+            old.append(None)
+            st["live"].add(k)
+        for k in sorted(st["live"]):
+            now = [o.state().value for o in idx.ops[k]]
+            if now != old[k]:
+                d.append([k + 1, now])
+                old[k] = now
+                if all(x == "completed" for x in now):
+                    st["live"].discard(k)
+        return d
 
     def hdr(ex):
         ramcap, ramcapr = to_units(ex.ram_gb_per_pool, U)
@@ -123,9 +139,12 @@ def record_run(params: dict, *, tid: int, workload=None, exact=None, mode="obs",
             if sparse and not res and not suspensions and not assignments:
                 st["t"] += 1
                 return res
-            events.append({"ev": "exec", "tid": tid, "t": st["t"],
-                           "obs": {"ost": idx.ost(), "pools": project_pools(ex, idx, cids, U), "results": res_json(res)},
-                           "hint": {"oom": [cids.get(r.container_id) for r in res if r.error]}})
+            if lean:
+                events.append({"ev": "exec", "tid": tid, "t": st["t"], "obs": {"ostd": ost_delta(), "results": res_json(res)}})
+            else:
+                events.append({"ev": "exec", "tid": tid, "t": st["t"],
+                               "obs": {"ost": idx.ost(), "pools": project_pools(ex, idx, cids, U), "results": res_json(res)},
+                               "hint": {"oom": [cids.get(r.container_id) for r in res if r.error]}})
             st["t"] += 1
             return res
 
@@ -140,7 +159,7 @@ def record_run(params: dict, *, tid: int, workload=None, exact=None, mode="obs",
                 holder["ex"] = ex
             hdr(ex)
             wrap_executor(ex)
-        pre = {"ost": idx.ost(), "pools": None}       # the policy cannot change the pools: their view is taken when the event is logged
+        pre = {"ost": [] if lean else idx.ost(), "pools": None}       # the policy cannot change the pools: their view is taken when the event is logged
         try:
             sus, asg = SCHEDULING_ALGOS[algo](s, results, pipelines)
         except BaseException as e:  # noqa: BLE001
@@ -149,6 +168,9 @@ def record_run(params: dict, *, tid: int, workload=None, exact=None, mode="obs",
                            "pre": pre, "sus": [], "asg": [], "obs": {"ost": idx.ost()}, "raised": f"{type(e).__name__}: {str(e)[:100]}"})
             raise
         if sparse and not sus and not asg and not results and not pipelines:
+            return sus, asg
+        if lean:
+            events.append({"ev": "round", "tid": tid, "t": st["t"], "new": list(st["arrived_now"]), "sus": [0] * len(sus), "asg": [0] * len(asg), "raised": ""})
             return sus, asg
         pre["pools"] = pools_view(ex)
         sj = [{"cid": cids.get(x.container_id), "pool": x.pool_id + 1} for x in sus]
